@@ -4,6 +4,7 @@ CONSTANTS
  Nodes = {1, 2} Adv = {} Requesters = {} Verifiers = {1}
  Values <- Vals1 NChunks = 2 Window = 10 Pre <- PreOwn2
  MaxReq = 0 MaxVer = 1 MaxHon = 1 MaxDup = 1 MaxDrop = 0 MaxAdv = 0 MaxTimeouts = 1 MaxTicks = 0
+ AdvKinds = {"junk", "data", "resp", "chal"} AdvResps = {0, 1, 2, 3}
  TickSteps = {}
  OnceOnly = TRUE CheckPeer = TRUE CheckHash = TRUE AskConsent = TRUE
 INVARIANT VerifyOnce
